@@ -332,4 +332,63 @@ def samplerFromEnv (name : Option Bytes) (hasArg : Bool) (pf : PF) (nan : Nat) :
       else let (s, e) := parseTraceIDRatio pf nan; (some (parentBasedDefault s), e)
     else (none, .unsupported)
 
+
+/-! ## provider.go: which sampler a TracerProvider ends up with
+
+`NewTracerProvider(opts...)`: `applyTracerProviderEnvConfigs` first — `samplerFromEnv()`; an error is handed to
+`otel.Handle`; a non-nil sampler is applied through `WithSampler` — then the caller's options in order
+(`WithSampler(s)`: `if s != nil { cfg.sampler = s }`), then `ensureValidTracerProviderConfig`:
+`if cfg.sampler == nil { cfg.sampler = ParentBased(AlwaysSample()) }`. -/
+
+/-- `WithSampler(s).apply(cfg)` on the sampler field -/
+def withSampler (cfg : Option Sampler) (s : Option Sampler) : Option Sampler :=
+  match s with
+  | some x => some x
+  | none => cfg
+
+/-- the sampler of `NewTracerProvider(WithSampler(o₁), …, WithSampler(oₙ))` under the environment `env` (the result of
+`samplerFromEnv`), and whether an error was handed to the global error handler -/
+def providerSampler (env : Option Sampler × EnvErr) (opts : List (Option Sampler)) : Sampler × Bool :=
+  let fromEnv := withSampler none env.1
+  ((opts.foldl withSampler fromEnv).getD (parentBasedDefault .always), env.2 != .ok)
+
+/-! ## tracer.go: what the sampler is shown of the start configuration, and what it contributes to the span
+
+`newSpan` hands the sampler `SamplingParameters{Name, Kind: config.SpanKind(), Attributes: config.Attributes(),
+Links: config.Links()}` — the RAW kind. `newRecordingSpan` stores `trace.ValidateSpanKind(config.SpanKind())`
+(unspecified and out-of-range kinds become Internal) and calls `s.SetAttributes(sr.Attributes...)` and THEN
+`s.SetAttributes(config.Attributes()...)`: on a key both set, the start option's value wins, at the position of the
+sampler's attribute (de-duplication keeps the first position and the last value). Keys are small numbers, values
+integers (no limit is reached, nothing is truncated: that is C04's business). -/
+
+abbrev AttrKV := Nat × Int
+
+/-- `trace.ValidateSpanKind` on the numeric kind (Internal = 1 … Consumer = 5) -/
+def validateKind (k : Nat) : Nat := if 1 ≤ k ∧ k ≤ 5 then k else 1
+
+/-- one iteration of the span's read-time de-duplication (first position, last value) -/
+def upsertKV : List AttrKV → AttrKV → List AttrKV
+  | [], a => [a]
+  | b :: tl, a => if b.1 = a.1 then a :: tl else b :: upsertKV tl a
+
+/-- the attributes a reader of the started span sees -/
+def startAttrs (samplerAttrs cfgAttrs : List AttrKV) : List AttrKV := (samplerAttrs ++ cfgAttrs).foldl upsertKV []
+
+structure SPOut where
+  seenName : Bytes
+  seenKind : Nat
+  seenAttrs : List AttrKV
+  seenLinks : Nat
+  recording : Bool
+  spanKind : Nat
+  attrs : List AttrKV      -- [] when not recording
+deriving DecidableEq, Repr
+
+def startParams (kind : Nat) (name : Bytes) (cfgAttrs : List AttrKV) (nLinks : Nat) (dec : Nat)
+    (samplerAttrs : List AttrKV) : SPOut :=
+  { seenName := name, seenKind := kind, seenAttrs := cfgAttrs, seenLinks := nLinks,
+    recording := isRecording dec,
+    spanKind := if isRecording dec then validateKind kind else 0,
+    attrs := if isRecording dec then startAttrs samplerAttrs cfgAttrs else [] }
+
 end Otel.C09
